@@ -40,7 +40,7 @@ func (e *Engine) nilCheck(st *State, p Ptr, what string) {
 // narrow shrinks the candidate range of a symbolic index over a large array to the feasible
 // maximum (binary search with the solver), so that ite chains stay small.
 func (e *Engine) narrow(st *State, p Ptr) Ptr {
-	if len(p.Sym) != 1 || p.Sym[0].N <= 48 {
+	if len(p.Sym) != 1 || p.Sym[0].N <= 512 {
 		return p
 	}
 	s := p.Sym[0]
